@@ -206,6 +206,12 @@ func checkTypestate(c *Ctx, r *Run, m *lockModel) {
 					closeFns = append(closeFns, fn)
 				}
 			}
+			// `defer close(h.out)`: the same single close, placed at the exit of the closing function
+			if df, ok := in.(*ssa.Defer); ok {
+				if b, ok := df.Call.Value.(*ssa.Builtin); ok && b.Name() == "close" && m.fieldsOf(fn, df.Call.Args[0])[ts.outF] {
+					closeFns = append(closeFns, fn)
+				}
+			}
 		})
 	}
 	okOne := len(closeFns) == 1
@@ -344,6 +350,10 @@ func checkTypestate(c *Ctx, r *Run, m *lockModel) {
 
 			// Running established
 			okRun, why := ts.runningAtCall(fn, in)
+			if !okRun && ts.selfGuarding(cal) {
+				// the callee establishes Running itself before anything that may end the session (Accept -> accept)
+				okRun = true
+			}
 			r.Check("TS-1", tn+"|"+c.FuncName(fn)+"|running-before "+cal.Name()+siteTag(in, cal), c.Pos(in.Pos()), okRun,
 				"the session is in state Running (err == nil && result == nil, read under the lock) whenever a call that may close the channel is made", why)
 
@@ -371,10 +381,17 @@ func checkTypestate(c *Ctx, r *Run, m *lockModel) {
 		var closeIn ssa.Instruction
 		var errStore ssa.Instruction
 		blockingSend := ""
+		deferredClose := false
 		allInstrs(A, func(in ssa.Instruction) {
 			if call, ok := in.(*ssa.Call); ok {
 				if b, ok := call.Call.Value.(*ssa.Builtin); ok && b.Name() == "close" {
 					closeIn = in
+				}
+			}
+			// `defer close(out)` in the entry block: the channel is closed at every exit, after everything else
+			if df, ok := in.(*ssa.Defer); ok && in.Block() == A.Blocks[0] {
+				if b, ok := df.Call.Value.(*ssa.Builtin); ok && b.Name() == "close" {
+					deferredClose = true
 				}
 			}
 			if st, ok := in.(*ssa.Store); ok {
@@ -408,6 +425,9 @@ func checkTypestate(c *Ctx, r *Run, m *lockModel) {
 			})
 		})
 		okStore := errStore != nil && closeIn != nil && instrReaches(errStore, closeIn) && !instrReaches(closeIn, errStore)
+		if deferredClose && closeIn == nil {
+			okStore = errStore != nil
+		}
 		// the store is on the err != nil edge
 		if okStore {
 			errParam := ssa.Value(nil)
@@ -419,7 +439,7 @@ func checkTypestate(c *Ctx, r *Run, m *lockModel) {
 		r.Check("TS-1", tn+"|"+A.Name()+"|records-error-before-close", c.Pos(A.Pos()), okStore,
 			"a non-nil error is stored (state becomes Finished) before the channel is closed", "the err field is not stored on the err != nil path before close(out)")
 		// close on every path
-		everyPath := closeIn != nil
+		everyPath := closeIn != nil || deferredClose
 		if closeIn != nil {
 			walkFrom(A.Blocks[0], 0, func(x ssa.Instruction) bool {
 				if x == closeIn {
@@ -491,11 +511,18 @@ func checkTypestate(c *Ctx, r *Run, m *lockModel) {
 	} else {
 		r.Unresolved("TS-3", tn+".Stop")
 	}
+	var ts3 []*ssa.Function
 	for _, fn := range m.fns {
-		fn := fn
 		if fn.Parent() != nil || !fn.Object().Exported() {
 			continue
 		}
+		ts3 = append(ts3, fn)
+		if inner := thinWrapperInner(fn); inner != nil {
+			ts3 = append(ts3, inner) // the body of an exported wrapper (Accept -> accept)
+		}
+	}
+	for _, fn := range ts3 {
+		fn := fn
 		allInstrs(fn, func(in ssa.Instruction) {
 			isEff := false
 			what := ""
@@ -742,4 +769,29 @@ func signalsAbort(fn *ssa.Function, mayAb map[*ssa.Function]bool) bool {
 		}
 	}
 	return true
+}
+
+// selfGuarding: inside cal every call that may end the session is made at a point where cal itself has established
+// err == nil && result == nil (its own early-return guard), so cal may be entered in any state.
+func (ts *handlerTS) selfGuarding(cal *ssa.Function) bool {
+	if cal == nil || len(cal.Blocks) == 0 {
+		return false
+	}
+	n, ok := 0, true
+	allInstrs(cal, func(in ssa.Instruction) {
+		c2 := staticCallee(in)
+		if c2 == nil || !ts.mayAb[c2] {
+			return
+		}
+		if _, isDefer := in.(*ssa.Defer); isDefer {
+			ok = false
+			return
+		}
+		n++
+		f := ts.nilFacts(cal, in.Block())
+		if !(f[ts.errF] && f[ts.resF]) {
+			ok = false
+		}
+	})
+	return ok && n > 0
 }
